@@ -45,6 +45,7 @@ T_Prefix == /\ IsEvent("Prefix")
                       /\ E.full = "ok"                                               \* and the complete parse is unaffected
 T_Mut == /\ IsEvent("Mut")
          /\ J10 => /\ E.panic = 0                                                   \* no input crashes a parser
+                   /\ E.hang = 0                                                    \* every parser / the packet reader returns
                    /\ E.ok + E.need + E.err = E.n
                    /\ E.disprop = 0                                                 \* allocation proportional to what was received
                    /\ (E.declared > 0 => /\ "C10-alloc-declared-length" \in Acknowledged
